@@ -9,7 +9,7 @@ outside the whitelist.
 """
 import ast
 import os
-from .common import TranslationError, parse, find_class, find_func, HEADER, coq_str
+from .common import TranslationError, parse, find_class, find_func, HEADER, coq_str, sink_branch_locals
 
 OPTIMIZERS = [
     ('ABC', 'abc'), ('AIWPSO', 'aiwpso'), ('BA', 'ba'), ('BHA', 'bha'), ('CS', 'cs'), ('FA', 'fa'),
@@ -117,6 +117,7 @@ class Tr:
         file = 'opytimizer/optimizers/%s.py' % modname
         while True:
             tree, src = parse(self.repo, file)
+            sink_branch_locals(tree)
             c = find_class(tree, clsname)
             if c is None:
                 raise TranslationError(file, None, 'class %s not found' % clsname)
